@@ -4,6 +4,7 @@ import (
 	"fmt"
 	"runtime"
 	"sort"
+	"strings"
 	"sync"
 	"sync/atomic"
 	"testing/synctest"
@@ -19,6 +20,8 @@ type SchedSpec struct {
 	LenHint   int     `json:"len_hint,omitempty"`  // pct: expected number of decisions
 	Decisions []int32 `json:"decisions,omitempty"` // replay: task id per decision, -1 = default policy
 	MaxSteps  int     `json:"max_steps,omitempty"` // cap on decisions (0 = default)
+	// SkipPrefix: scheduling points whose label starts with one of these are not scheduling points in this run
+	SkipPrefix []string `json:"skip_prefix,omitempty"`
 }
 
 type task struct {
@@ -153,6 +156,11 @@ func (s *Sched) LockDelta(d int) {
 func (s *Sched) Gate(label string) {
 	if !s.active.Load() {
 		return
+	}
+	for _, p := range s.spec.SkipPrefix {
+		if strings.HasPrefix(label, p) {
+			return
+		}
 	}
 	t := s.cur()
 	if t.lockDepth > 0 {
